@@ -1,146 +1,291 @@
-import Driver.Util
-import SaModel.Read.Access
-/- suite `access` (C13): histories over the real `Deserializer`, mirrored step by step -/
-namespace Driver.Suites.Access
-open Lean Driver SaModel SaModel.Access
+import Driver.ReadCheck
+import SaModel.Read.Cast
+import SaModel.Read.AccessVal
+import SaModel.Backend.Adapters
+/- suite `access` (C13): histories over the real `Deserializer`, mirrored step by step on `SaModel/Read/AccessVal.lean`.
 
-/-- a request of the harness: one model operation, or a PROVIDED `Iterator` method, which std defines through `next`
-(`nth(n)` = `n + 1` calls of `next`, the last one's result; `count()` = calls of `next` until `None`, the number of
-items; the harness calls `count` / `last` BY VALUE and refills the slot with an exhausted iterator) and which is therefore replayed on the model as that many `iterNext` steps — the iterator is fused, so
-calls after the end change nothing -/
+agree    : the model (`AccessVal.Deser.new` behind the constructor used — `Backend.Deserializer.fromArrow` … with the
+           identity conversions on the wire form — and `AccessVal.step`) reproduces the constructor outcome and every output.
+spec C13 : (1) the constructor succeeds iff counts agree, all views have one length and the root reader can be built
+           (`ctor_order`), and reports that length; (2) every output equals the abstract sequence's (`AccessVal.specStep`:
+           call counters only) evaluated with `Roundtrip.readRecord t fields arrs i` (`item_value`); (3) the generator's
+           rows: `Spec.decodeAt` of every dumped view equals the rows the generator laid out, and wherever `cast` of
+           the row into the operation's target defines a value, the yielded item is that value.
+spec C16 : no operation unwinds. -/
+namespace Driver.Suites.Access
+open Lean Driver SaModel SaModel.Read SaModel.AccessVal
+
+/-- a request of the harness: an operation of the model, or the `Deserializer` itself through one `serde::Deserializer`
+method -/
 inductive Req where
-  | one (op : Op)
-  | nth (k n : Nat)
-  | count (k : Nat)
-  | last (k : Nat)          -- provided `Iterator::last`: calls of `next` until `None`, the last item seen
-  | collectRev              -- a fresh iterator collected, the items deserialized afterwards in reverse order
-  | top (how : String)      -- the `Deserializer` itself through one `serde::Deserializer` method
+  | op (o : AccessVal.Op)
+  | top (how : String)
 
 /-- the methods of `impl serde::Deserializer for Deserializer` that present the records as a sequence (deserializer.rs:
 `deserialize_seq`, `_tuple`, `_tuple_struct`, `_any`, `_newtype_struct`); `ignored` consumes them; all others refuse -/
 def topIsSeq (how : String) : Bool := ["seq", "tuple", "tuple_struct", "any", "newtype"].contains how
 
-def parseOp (j : Json) : Except String Op := do
-  let k ← getStr j "op"
-  match k with
-  | "len" => pure .len
-  | "is_empty" => pure .isEmpty
-  | "get" => pure (.get (← getNat j "i"))
-  | "iter_new" => pure .iterNew
-  | "iter_next" => pure (.iterNext (← getNat j "k"))
-  | "iter_hint" => pure (.iterHint (← getNat j "k"))
-  | "bulk" => pure .bulk
-  | _ => throw s!"unknown op {k}"
-
 def parseReq (j : Json) : Except String Req := do
+  let ty : Except String Target := do targetOfJson (← getObj j "ty")
   match (← getStr j "op") with
-  | "iter_nth" => pure (.nth (← getNat j "k") (← getNat j "n"))
-  | "iter_count" => pure (.count (← getNat j "k"))
-  | "iter_last" => pure (.last (← getNat j "k"))
-  | "collect_rev" => pure .collectRev
+  | "len" => pure (.op .len)
+  | "is_empty" => pure (.op .isEmpty)
+  | "get" => pure (.op (.get (← getNat j "i") (← ty)))
+  | "iter_new" => pure (.op .iterNew)
+  | "iter_next" => pure (.op (.iterNext (← getNat j "k") (← ty)))
+  | "iter_nth" => pure (.op (.iterNth (← getNat j "k") (← getNat j "n") (← ty)))
+  | "iter_count" => pure (.op (.iterCount (← getNat j "k")))
+  | "iter_last" => pure (.op (.iterLast (← getNat j "k") (← ty)))
+  | "iter_hint" => pure (.op (.iterHint (← getNat j "k")))
+  | "bulk" => pure (.op (.bulk (← ty)))
+  | "collect_rev" => pure (.op (.collectRev (← ty)))
   | "top" => pure (.top (← getStr j "how"))
-  | _ => pure (.one (← parseOp j))
+  | k => throw s!"unknown op {k}"
 
 def Req.name : Req → String
-  | .one op => match op with
-    | .len => "len" | .isEmpty => "is_empty" | .get _ => "get" | .iterNew => "iter_new"
-    | .iterNext _ => "iter_next" | .iterHint _ => "iter_hint" | .bulk => "bulk"
-  | .nth _ _ => "iter_nth"
-  | .count _ => "iter_count"
-  | .last _ => "iter_last"
-  | .collectRev => "collect_rev"
+  | .op o => match o with
+    | .len => "len" | .isEmpty => "is_empty" | .get _ _ => "get" | .iterNew => "iter_new"
+    | .iterNext _ _ => "iter_next" | .iterNth _ _ _ => "iter_nth" | .iterCount _ => "iter_count"
+    | .iterLast _ _ => "iter_last" | .iterHint _ => "iter_hint" | .bulk _ => "bulk" | .collectRev _ => "collect_rev"
   | .top how => s!"top:{if topIsSeq how then how else if how == "ignored" then how else "refused"}"
 
-/-- the model operations a request stands for (`len` bounds the `count` replay: `len + 1` calls reach the end) -/
-def Req.expand (len : Nat) : Req → List Op
-  | .one op => [op]
-  | .nth k n => List.replicate (n + 1) (.iterNext k)
-  | .count k | .last k => List.replicate (len + 1) (.iterNext k)
-  | .collectRev => [.bulk]            -- reading every item of a fresh iterator = the bulk read, here in reverse
-  | .top how => if topIsSeq how then [.bulk] else []
+def Req.target : Req → Option Target
+  | .op (.get _ t) | .op (.iterNext _ t) | .op (.iterNth _ _ t) | .op (.iterLast _ t) | .op (.bulk t)
+  | .op (.collectRev t) => some t
+  | _ => none
 
-/-- fold the outputs of the expansion back into the one output the request has -/
-def Req.collapse : Req → List Out → Out
-  | .one _, outs => outs.headD .unit
-  | .nth _ _, outs => outs.getLastD .unit
-  | .count _, outs =>
-    if outs.any (fun o => match o with | .noSuchIter => true | _ => false) then .noSuchIter
-    else .n (outs.filter (fun o => match o with | .item (some _) => true | _ => false)).length
-  | .last _, outs =>
-    if outs.any (fun o => match o with | .noSuchIter => true | _ => false) then .noSuchIter
-    else ((outs.filter (fun o => match o with | .item (some _) => true | _ => false)).getLast?).getD (.item none)
-  | .collectRev, outs => match outs.headD .unit with
-    | .items l => .items l.reverse
-    | o => o
-  | .top how, outs =>
-    if topIsSeq how then outs.headD .unit
-    else if how == "ignored" then .unit
-    else .b true                      -- "was refused with an error"
+/-- the model operation a request is replayed as (`top`: the sequence methods are the bulk read of `deserialize_any`
+records, `ignored` the bulk read of ignored ones; the refusing methods touch nothing) -/
+def Req.modelOp : Req → Option AccessVal.Op
+  | .op o => some o
+  | .top how => if topIsSeq how then some (.bulk .any) else if how == "ignored" then some (.bulk .ignored) else none
 
-def collapseAll (len : Nat) : List Req → List Out → List Out
-  | [], _ => []
-  | r :: rs, outs =>
-    let k := (r.expand len).length
-    r.collapse (outs.take k) :: collapseAll len rs (outs.drop k)
+/-- what one side (model or specification) says an output must be -/
+inductive Want where
+  | out (o : AccessVal.Out)
+  | ignoredOk (r : R (List DVal))      -- `IgnoredAny::deserialize(deserializer)`: unit when every record can be skipped
+  | refused                            -- must be an error
 
-def opName : Op → String
-  | .len => "len" | .isEmpty => "is_empty" | .get _ => "get" | .iterNew => "iter_new"
-  | .iterNext _ => "iter_next" | .iterHint _ => "iter_hint" | .bulk => "bulk"
+inductive Cmp where
+  | agree
+  | na
+  | differ (why : String)
 
-/-- render a model/spec output the way the harness renders the implementation's -/
-def outJson (rows : Array Json) : Out → Json
-  | .n x => Json.mkObj [("n", x)]
-  | .b x => Json.mkObj [("b", x)]
-  | .item none => Json.mkObj [("item", Json.null)]
-  | .item (some i) => Json.mkObj [("item", rows.getD i (Json.str "<no such row>"))]
-  | .hint lo hi => Json.mkObj [("hint", Json.arr #[lo, match hi with | some h => (h : Json) | none => Json.null])]
-  | .items l => Json.mkObj [("items", Json.arr (l.map fun i => rows.getD i (Json.str "<no such row>")).toArray)]
-  | .unit => Json.mkObj [("unit", true)]
-  | .noSuchIter => Json.mkObj [("no_such_iter", true)]
+def Cmp.and : Cmp → Cmp → Cmp
+  | .differ w, _ => .differ w
+  | _, .differ w => .differ w
+  | .na, _ => .na
+  | _, .na => .na
+  | _, _ => .agree
 
-def firstDiff (ops : List Req) (a b : List Json) : Option (Nat × Req) :=
-  let rec go : Nat → List Req → List Json → List Json → Option (Nat × Req)
-    | _, [], _, _ => none
-    | i, op :: ops, x :: xs, y :: ys => if x == y then go (i + 1) ops xs ys else some (i, op)
-    | i, op :: _, _, _ => some (i, op)
-  go 0 ops a b
+def cmpOutcome (r : R DVal) (impl : Json) : Cmp :=
+  if outcomeAgrees r impl then .agree
+  else .differ s!"expected {(outcomeJson r).compress.take 300}, implementation {impl.compress.take 300}"
+
+def seqOutcome (r : R (List DVal)) : R DVal := r.map fun xs => .seq (DVals.ofList xs)
+
+def cmpWant (w : Want) (impl : Json) : Cmp :=
+  let key (k : String) : Option Json := match impl.getObjVal? k with | .ok v => some v | _ => none
+  let plain (j : Json) : Cmp := if impl == j then .agree else .differ s!"expected {j.compress}, implementation {impl.compress.take 300}"
+  match w with
+  | .out (.n x) => plain (Json.mkObj [("n", x)])
+  | .out (.b x) => plain (Json.mkObj [("b", x)])
+  | .out .unit => plain (Json.mkObj [("unit", true)])
+  | .out .noSuchIter => plain (Json.mkObj [("no_such_iter", true)])
+  | .out (.hint lo hi) => plain (Json.mkObj [("hint", Json.arr #[lo, match hi with | some h => (h : Json) | none => Json.null])])
+  | .out (.item none) => plain (Json.mkObj [("item", Json.null)])
+  | .out (.item (some r)) =>
+    match key "item" with
+    | some .null => .differ "expected an item, implementation has none"
+    | some o => cmpOutcome r o
+    | none => .differ s!"expected an item, implementation {impl.compress.take 300}"
+  | .out (.items r) =>
+    match key "items" with
+    | some o => cmpOutcome (seqOutcome r) o
+    | none => .differ s!"expected a sequence outcome, implementation {impl.compress.take 300}"
+  | .out (.each l) =>
+    match key "each" with
+    | some (.arr a) =>
+      if a.size != l.length then .differ s!"expected {l.length} items, implementation {a.size}"
+      else (l.zip a.toList).foldl (fun acc (r, o) => acc.and (cmpOutcome r o)) .agree
+    | _ => .differ s!"expected a list of items, implementation {impl.compress.take 300}"
+  | .ignoredOk r =>
+    match key "items" with
+    | some o =>
+      (match r with
+       | .ok _ => if o == Json.mkObj [("ok", "unit")] then .agree else .differ s!"expected unit, implementation {o.compress.take 300}"
+       | .error (.panic _) => if implCls o == "panic" then .agree else .differ "expected a panic"
+       | .error _ => if implCls o == "err" then .agree else .differ s!"expected an error, implementation {o.compress.take 300}")
+    | none => .differ s!"expected an outcome, implementation {impl.compress.take 300}"
+  | .refused =>
+    match key "items" with
+    | some o => if implCls o == "err" then .agree else .differ s!"the method must refuse, implementation {o.compress.take 300}"
+    | none => .differ s!"expected an outcome, implementation {impl.compress.take 300}"
+
+/-- what the generator's rows say about one record read into `t`: `cast` of the decoded slot -/
+def rowClaim (root : Arr) (t : Target) (i : Nat) : Claim :=
+  match Spec.decodeAt root i with
+  | .ok lv => if utf8Ok lv then cast t root lv else na
+  | .error _ => na
+
+/-- compare a claim with an outcome of the implementation: only DEFINED values are demanded here (that a value without
+an exact representation must fail is C05's content and has known findings there) -/
+def cmpClaim (c : Claim) (o : Json) : Cmp :=
+  match c with
+  | .ok (some d) =>
+    match o.getObjVal? "ok" with
+      | .ok j => if dvalMatches d j then .agree
+                 else .differ s!"rows say {(dvalToJson d).compress.take 300}, implementation {j.compress.take 300}"
+      | _ => .differ s!"rows say {(dvalToJson d).compress.take 300}, implementation {o.compress.take 300}"
+  | _ => .na
+
+def cmpRows (root : Arr) (sym : SymOut) (impl : Json) : Cmp :=
+  let key (k : String) : Option Json := match impl.getObjVal? k with | .ok v => some v | _ => none
+  match sym with
+  | .item (some (t, i)) =>
+    (match key "item" with
+     | some .null => .differ "rows have this record, implementation has no item"
+     | some o => cmpClaim (rowClaim root t i) o
+     | none => .na)
+  | .items t l =>
+    (match key "items" with
+     | some o =>
+       let c : Claim := match claimList (l.map (rowClaim root t)) with
+         | .ok (some ds) => must (.seq (DVals.ofList ds))
+         | .ok none => na
+         | .error e => .error e
+       cmpClaim c o
+     | none => .na)
+  | .each t l =>
+    (match key "each" with
+     | some (.arr a) => (l.zip a.toList).foldl (fun acc (i, o) => acc.and (cmpClaim (rowClaim root t i) o)) .agree
+     | _ => .na)
+  | _ => .na
+
+def core : Backend.Core Unit Unit Deser Unit :=
+  { newOuter := fun _ => .ok (), serialize := fun _ _ => .ok (), takeArrays := fun _ => .ok ([], ()),
+    deserializerNew := Deser.new, deserialize := fun _ => .ok () }
+
+/-- the constructor the case went through (marrow's conversions are the identity on the wire form) -/
+def construct (via : String) (fields : List Field) (arrs : List Arr) : R Deser :=
+  match via with
+  | "arrow" => Backend.Deserializer.fromArrow core Backend.Conv.id fields arrs
+  | "record_batch" => Backend.Deserializer.fromRecordBatch core Backend.Conv.id { fields, schemaMetadata := [], columns := arrs }
+  | "arrow2" => Backend.Deserializer.fromArrow2 core Backend.Conv.id fields arrs
+  | _ => Backend.Deserializer.fromMarrow core fields arrs
+
+structure Acc where
+  agree : Bool := true
+  c13 : String := "pass"
+  c16 : String := "pass"
+  sig : String := ""
+  why : String := ""
+  tags : List String := []
+
+def Acc.note (a : Acc) (sig why : String) : Acc :=
+  if a.sig == "" then { a with sig := sig, why := why } else a
 
 def handle (j : Json) : Except String Verdict := do
+  if let some s := getOpt j "skip" then
+    return { agree := true, spec := [("C13", "na")], tags := ["trivial", "skip"], why := s.compress }
+  let via ← getStr j "via"
   let nfields ← getNat j "nfields"
-  let lens ← (← getArr j "view_lens").toList.mapM fun x => x.getNat?
+  let cols := (← getArr j "cols").toList
+  let arrs ← (← getArr j "views").toList.mapM arrOfJson
+  let colFms ← cols.mapM fun c => do fmetaOfJson (← getObj c "field")
+  let fms := (colFms ++ (List.range (nfields - colFms.length)).map fun k =>
+    ({ name := s!"x{colFms.length + k}", nullable := false, metadata := [] } : FieldMeta)).take nfields
+  let fields : List Field := fms.map fun fm => Field.mk fm.name .null fm.nullable fm.metadata
   let ctor ← getObj j "ctor"
-  let rows ← getArr j "rows"
-  let model := Access.new true nfields lens
   let cls := implCls ctor
-  -- specification of the constructor (theorem ctor_checks): ok iff counts agree and one length
-  let specOk := lens.length == nfields && lens.all (· == lens.headD 0)
-  let specCtor := if specOk then cls == "ok" else cls == "err"
-  if model.cls != cls then
-    return { agree := false, spec := [("C13", if specCtor then "pass" else "fail"), ("C16", if cls == "panic" then "fail" else "pass")],
-             sig := s!"C13/ctor/model={model.cls}/impl={cls}/count_eq={lens.length == nfields}",
-             why := s!"constructor: model {model.cls}, implementation {cls}" }
+  let kinds := (arrs.map arrKind).eraseDups
+  let mut acc : Acc := { tags := [s!"via:{via}", s!"cols:{arrs.length}"] ++ kinds.map (s!"kind:{·}") ++
+    (if cols.any (fun c => (getOpt c "slice").isSome) then ["sliced"] else []) }
+  -- the generator's rows, column by column: `Spec.decodeAt` of the dumped view = what the generator laid out
+  for (c, a) in cols.zip arrs do
+    let rows := (← getArr c "rows").toList
+    let rows := match getOpt c "slice" with
+      | some (.arr #[o, l]) => (rows.drop (o.getNat?.toOption.getD 0)).take (l.getNat?.toOption.getD 0)
+      | _ => rows
+    if vlen a != rows.length then
+      return { agree := false, spec := [("C13", "na")], sig := s!"C13/oracle/len/{arrKind a}",
+               why := s!"view length {vlen a}, generator rows {rows.length}" }
+    let mut i := 0
+    for row in rows do
+      let dec := match Spec.decodeAt a i with
+        | .ok lv => lvalToJson lv
+        | .error _ => Json.str "<decode error>"
+      if dec != row then
+        return { agree := false, spec := [("C13", "na")], sig := s!"C13/oracle/spec-vs-generator/{arrKind a}",
+                 why := s!"row {i}: Spec.decode {dec.compress.take 300}, generator {row.compress.take 300}" }
+      i := i + 1
+  -- constructor: model, and specification (theorem ctor_order)
+  let model := construct via fields arrs
+  let len0 := firstLen arrs
+  let specOk := arrs.length == fields.length && arrs.all (vlen · == len0) &&
+    (Read.new Fixes.all (Roundtrip.rootArr fields arrs len0)).isOk
+  let lensShape := if arrs.length != fields.length then "count" else if !arrs.all (vlen · == len0) then
+      (if len0 == 0 then "lengths-zero-first" else "lengths") else "readers"
+  let specCtor := if specOk then cls == "ok" && (ctor.getObjValAs? Nat "ok").toOption == some len0 else cls == "err"
+  let c16 := if cls == "panic" then "fail" else "pass"
+  if model.cls != cls || !specCtor then
+    return { agree := model.cls == cls, spec := [("C13", if specCtor then "pass" else "fail"), ("C16", c16)],
+             sig := s!"C13/ctor/{via}/{lensShape}/model={model.cls}/impl={cls}", tags := acc.tags,
+             why := s!"constructor {via} on {arrs.length} arrays of lengths {arrs.map vlen}, {fields.length} fields: model {model.cls}, specification {if specOk then "ok" else "err"}, implementation {ctor.compress.take 200}" }
   match model with
-  | .error _ => return { agree := true, spec := [("C13", if specCtor then "pass" else "fail"), ("C16", "pass")], tags := ["ctor-err"] }
-  | .ok len =>
-    let implLen ← getNat ctor "ok"
-    let ops ← (← getArr j "ops").toList.mapM parseReq
-    let impl := (← getArr j "impl").toList
-    let flat := ops.flatMap (Req.expand len)
-    let modelOuts := (collapseAll len ops (Access.run { len, iters := [] } flat)).map (outJson rows)
-    let specOuts := (collapseAll len ops (Access.specRun len [] flat)).map (outJson rows)
-    let tags := (ops.map Req.name).eraseDups
-    if implLen != len || rows.size != len then
-      return { agree := false, spec := [("C13", "fail")], sig := "C13/len", why := s!"len: model {len}, impl {implLen}, rows {rows.size}" }
-    let c16 := if impl.any (fun o => (o.getObjVal? "panic").isOk) then "fail" else "pass"
-    let dModel := firstDiff ops modelOuts impl
-    let dSpec := firstDiff ops specOuts impl
-    let specV := match dSpec with | none => "pass" | some _ => "fail"
-    match dModel with
-    | none => return { agree := impl.length == ops.length, spec := [("C13", specV), ("C16", c16)], tags := tags,
-                       sig := if impl.length == ops.length then "" else "C13/op-count" }
-    | some (i, op) =>
-      return { agree := false, spec := [("C13", specV), ("C16", c16)], tags := tags,
-               sig := s!"C13/{op.name}",
-               why := s!"op #{i} {op.name}: model {modelOuts.getD i Json.null}, impl {impl.getD i Json.null}" }
+  | .error _ => return { agree := true, spec := [("C13", "pass"), ("C16", "pass")], tags := acc.tags ++ ["ctor-err", s!"ctor-err:{lensShape}"] }
+  | .ok d =>
+    let reqs ← (← getArr j "ops").toList.mapM parseReq
+    let impls := (← getArr j "impl").toList
+    let root := d.root
+    let read : Target → Nat → R DVal := fun t i => Roundtrip.readRecord t fields arrs i
+    let mut st : AccessVal.St := []
+    let mut calls : Access.SpecSt := []
+    let mut k := 0
+    let mut readsOf : List (Nat × String) := []      -- (index, target kind) of the items read so far
+    for (req, impl) in reqs.zip impls do
+      if (impl.getObjVal? "panic").isOk then
+        acc := ({ acc with c16 := "fail", c13 := "fail", agree := false }).note s!"C13/panic/{req.name}" s!"op #{k} {req.name}: {impl.compress.take 300}"
+        break
+      let mut mWant : Want := .refused
+      let mut sWant : Want := .refused
+      let mut sym : SymOut := .unit
+      if let some o := req.modelOp then
+        let (st', mo) := AccessVal.step d st o
+        let (calls', so) := AccessVal.specStep d.len calls o
+        let wrap (x : AccessVal.Out) : Want := match req, x with
+          | .top "ignored", .items r => .ignoredOk r
+          | _, x => .out x
+        mWant := wrap mo
+        sWant := wrap (so.eval read)
+        sym := so
+        st := st'
+        calls := calls'
+      acc := { acc with tags := req.name :: acc.tags }
+      if let some t := req.target then acc := { acc with tags := s!"target:{targetKind t}" :: acc.tags }
+      -- repeated reads of one index with another target / through another path
+      if let .item (some (t, i)) := sym then
+        if readsOf.any (fun (i', tk) => i' == i && tk != targetKind t) then
+          acc := { acc with tags := "reread-other-target" :: acc.tags }
+        else if readsOf.any (fun (i', _) => i' == i) then
+          acc := { acc with tags := "reread" :: acc.tags }
+        readsOf := (i, targetKind t) :: readsOf
+      match cmpWant mWant impl with
+      | .agree => pure ()
+      | .na => acc := { acc with tags := "na-codec" :: acc.tags }
+      | .differ why => acc := ({ acc with agree := false }).note s!"C13/{req.name}" s!"op #{k} {req.name} (model): {why}"
+      match cmpWant sWant impl with
+      | .agree => pure ()
+      | .na => pure ()
+      | .differ why => acc := ({ acc with c13 := "fail" }).note s!"C13/{req.name}" s!"op #{k} {req.name} (specification): {why}"
+      match (match req with | .top "ignored" => Cmp.na | _ => cmpRows root sym impl) with
+      | .agree => acc := { acc with tags := "rows-checked" :: acc.tags }
+      | .na => pure ()
+      | .differ why => acc := ({ acc with c13 := "fail" }).note s!"C13/rows/{req.name}" s!"op #{k} {req.name} (generator rows): {why}"
+      k := k + 1
+    if impls.length != reqs.length && acc.sig == "" then
+      acc := ({ acc with agree := false }).note "C13/op-count" s!"{reqs.length} operations, {impls.length} outputs"
+    return { agree := acc.agree, spec := [("C13", acc.c13), ("C16", acc.c16)], sig := acc.sig, why := acc.why,
+             tags := acc.tags.eraseDups }
 
 end Driver.Suites.Access
